@@ -1,14 +1,18 @@
 #!/usr/bin/env python3
 """Writes /verif/seeded/README.md: one row per confirmed seeded defect and the checks that catch it."""
-import json, os, glob
+import json, os, glob, re
 rows = []
 for m in sorted(glob.glob('/verif/seeded/*/meta.json')):
     d = json.load(open(m))
     notes = ''
     np = os.path.join(os.path.dirname(m), 'NOTES.md')
+    if os.path.exists(np):
+        heads = [l for l in open(np).read().splitlines() if l.startswith('#')]
+        if heads:
+            notes = re.sub(r'^[#\s]*(?:(?:\(?C\d\d\)?|[Ss]eed|[Cc]hange|[A-F])[\s/]*)+\s*[—–-]+\s*', '', heads[0]).replace('|', '/').strip()
     demo = d.get('demonstration', {})
     ok = d.get('builds') and d.get('suite', {}).get('same_failing_set') and demo and all(v['fails_with_patch'] and v['passes_without_patch'] for v in demo.values())
-    rows.append((d['id'], d['property'], ', '.join(d.get('files_changed', [])), 'yes' if ok else 'NO', ', '.join(d.get('detected_by', [])) or '**none**', d.get('one_line', '')))
+    rows.append((d['id'], d['property'], ', '.join(d.get('files_changed', [])), 'yes' if ok else 'NO', ', '.join(d.get('detected_by', [])) or '**none**', d.get('one_line', '') or notes))
 with open('/verif/seeded/README.md', 'w') as f:
     f.write('# Seeded defects (produced by independent sub-agents from the property text only)\n\n')
     f.write('Each directory holds `patch.diff` (never committed to /repo), the demonstration, the author\'s `NOTES.md` and `meta.json` (what was confirmed and which quick checks report it).\n')
